@@ -45,7 +45,7 @@ fn dispatch(toks: &[&str]) -> String {
         "enc62" | "enc53" | "dec62" | "dec53" | "trk" | "enc35" | "dec35" | "trk35" => img_streams::dispatch(toks),
         "sectorops" => sectorops::run(toks),
         "dpbinfo" => { let d = a2kit::bios::dpb::DiskParameterBlock::create(&geom::kind_of(toks[2])); format!("{} {} {} {} {} {}",d.bsh,d.off,d.dsm,d.drm,d.exm,d.spt) },
-        "crc32" | "crc16" | "imdtrk" | "codec" => codec::dispatch(toks),
+        "crc32" | "crc16" | "imdtrk" | "codec" | "metasweep" => codec::dispatch(toks),
         "deseq" | "dosbin" | "probin" | "dostok" | "pack" | "txtb" | "pasenc" | "pasdec" | "txtenc" | "txtdec" => packrun::dispatch(toks),
         "malform" => malform::run(toks),
         "wozchunk" | "imdparse" | "dosunbin" | "dasmsweep" => malform::pieces(toks),
